@@ -122,16 +122,16 @@ def Target.isOption : Target → Bool
   | .option _ => true
   | _ => false
 
-/-- which `fix:` commits are applied (hashes: branch agent-read of the serde_arrow repository) -/
+/-- which `fix:` commits are applied (hashes: /repo main) -/
 structure Fixes where
-  bytesGet : Bool       -- fb4007b BytesView::get: index check off by one, unchecked data[start..end]
-  enumTypeId : Bool     -- 31ac8d2 EnumDeserializer: variants[type_id] unchecked
-  fsbZero : Bool        -- c5d9b5a FixedSizeBinaryDeserializer::new: % 0
-  bitAdd : Bool         -- 12670a5 get_bit_buffer: idx + offset unchecked
-  fslMul : Bool         -- ff58588 FixedSizeListDeserializer: idx * n unchecked
-  offsetsOrder : Bool   -- 1d2f491 list / map: decreasing offsets read as empty
-  structIdx : Bool      -- bbafff7 StructDeserializer typed reads: row index unchecked
-  nullLen : Bool        -- e2bc6b2 NullDeserializer: row index unchecked
+  bytesGet : Bool       -- ba3939f BytesView::get: index check off by one, unchecked data[start..end]
+  enumTypeId : Bool     -- cac40f2 EnumDeserializer: variants[type_id] unchecked
+  fsbZero : Bool        -- d34201c FixedSizeBinaryDeserializer::new: % 0
+  bitAdd : Bool         -- 26d51d0 get_bit_buffer: idx + offset unchecked
+  fslMul : Bool         -- 5e168c2 FixedSizeListDeserializer: idx * n unchecked
+  offsetsOrder : Bool   -- 930ecbd list / map: decreasing offsets read as empty
+  structIdx : Bool      -- 5355729 StructDeserializer typed reads: row index unchecked
+  nullLen : Bool        -- f7161dc NullDeserializer: row index unchecked
 deriving Repr, BEq, DecidableEq
 
 def Fixes.all : Fixes := ⟨true, true, true, true, true, true, true, true⟩
